@@ -702,6 +702,9 @@ func (m *aMonitor) afterOp(op aOp) {
 		}
 		for _, s := range aSnapshot(di, d) {
 			snaps[fmt.Sprintf("%d/%x", di, s.Key)] = s
+			if s.Foreign != "" {
+				m.viol("C01,C17", "key %x records a request of another key: %s", s.Key, s.Foreign)
+			}
 			census[di].keys++
 			census[di].waits += len(s.Waiters)
 			for _, h := range s.Holders {
